@@ -33,8 +33,11 @@ def _cases(draw, max_size=9):
     nb = draw(st.sampled_from([None, 0, 1, 2, 3, 4, 7, 10, 25]))
     # narrow float dtypes for exactly representable score values
     f32 = draw(st.sampled_from([None, None, "float32", "float16", "longdouble"])) if s["mode"] in ("grid", "dyadic") else None
-    return dict(s=s, fnr=fnr, fpr=fpr, thr=thr, nb=nb, dtype=f32,
-                nb_kind=draw(st.sampled_from(["py", "py", "int64", "int32", "uint16"])))
+    nb_kind = draw(st.sampled_from(["py", "py", "int64", "int32", "uint16"]))
+    if draw(st.integers(0, 9)) == 0:
+        # a count held in a narrow NumPy integer type, at the very top of its range
+        nb, nb_kind = draw(st.sampled_from([(255, "uint8"), (127, "int8"), (254, "uint8"), (126, "int8")]))
+    return dict(s=s, fnr=fnr, fpr=fpr, thr=thr, nb=nb, dtype=f32, nb_kind=nb_kind)
 
 
 def _mk(s, sc, ec, dtype=None):
@@ -137,6 +140,45 @@ def check(case):
     return dict(nontrivial=max_distinct >= 3, labels=labels)
 
 
+# ------------------------------------------------------------------ long curves
+def _long_cases(tier):
+    lengths = [65536, 65537, 131073] if tier == "quick" else [65535, 65536, 65537, 65538, 131072, 131073, 196609, 300000]
+    for L in lengths:
+        for mode in ("nb_points", "thresholds", "all-scores"):
+            for k, (sc, ec) in enumerate((("pos", "pos"), ("neg", "pos"))):
+                yield dict(L=L, mode=mode, sc=sc, ec=ec, x_axis=("fpr", "fnr", "tar")[(L + k) % 3])
+
+
+def check_long(case):
+    """Curves with 65536 and more points (block sizes of an implementation are invisible in short ones)."""
+    from score_analysis import Scores, roc
+
+    L, mode, sc, ec = case["L"], case["mode"], case["sc"], case["ec"]
+    if mode == "all-scores":
+        pos = 0.5 + 2.0 * np.arange(L // 2)
+        neg = 1.25 + 2.0 * np.arange(L - L // 2) - 100.0
+        o = Scores(pos, neg, nb_easy_pos=2, score_class=sc, equal_class=ec, is_sorted=True)
+        c = roc(o, nb_points=None, x_axis=case["x_axis"])
+    else:
+        pos = [0.25 * ((7 * i) % 40) for i in range(24)]
+        neg = [0.25 * ((11 * i) % 40) - 2.0 for i in range(24)]
+        o = Scores(pos, neg, nb_easy_neg=3, score_class=sc, equal_class=ec)
+        if mode == "nb_points":
+            c = roc(o, nb_points=L, x_axis=case["x_axis"])
+        else:
+            c = roc(o, thresholds=((np.arange(L) * 7919) % L) * (14.0 / L) - 3.0, x_axis=case["x_axis"])
+    t = np.asarray(c.thresholds, dtype=float)
+    ctx = f"{L} points ({mode}) config={sc}/{ec} x_axis={case['x_axis']}"
+    require(len(t) == L and len(c.fnr) == L and len(c.fpr) == L, "roc:lengths", f"{ctx}: {len(t)}, {len(c.fnr)}, {len(c.fpr)}")
+    bad = np.flatnonzero((np.asarray(c.fnr) != np.asarray(o.fnr(t))) | (np.asarray(c.fpr) != np.asarray(o.fpr(t))))
+    require(bad.size == 0, "roc:rates-vs-thresholds",
+            lambda: f"{ctx}: at point {int(bad[0])} (threshold {t[bad[0]]!r}) the curve has fnr={c.fnr[bad[0]]!r}, "
+                    f"fpr={c.fpr[bad[0]]!r}; the object's rates there are {o.fnr(t[bad[0]])!r}, {o.fpr(t[bad[0]])!r}")
+    xs = np.asarray(VIEW[case["x_axis"]](c), dtype=float)
+    require(bool(np.all(np.diff(xs) >= 0)), "roc:x-not-monotone", ctx)
+    return dict(nontrivial=True, labels=[f"L:{L}", mode])
+
+
 PROP = Prop(
     id="C15",
     rule=("Hypothesis: score sets with both classes non-empty (ties, int dtype, tie-free, floats, "
@@ -150,8 +192,10 @@ PROP = Prop(
           "complements/aliases; unknown x_axis raises ValueError. Non-trivial = some curve of the "
           "case has >=3 distinct thresholds (score_class=neg and decreasing axes are always among "
           "the 32 curves of a case)."),
-    clauses=[Clause("roc", check, strategy=lambda tier: _cases(9 if tier == "quick" else 30), quick=150, thorough=8000, quick_shards=4, fuzz=3000,
+    clauses=[Clause("long_curves", check_long, kind="enum", cases=_long_cases, quick_shards=6, shards=12,
+                    min_nontrivial=6, doc="curves of 65536-300000 points (grid, supplied thresholds, all scores)"),
+             Clause("roc", check, strategy=lambda tier: _cases(9 if tier == "quick" else 30), quick=150, thorough=8000, quick_shards=4, fuzz=3000,
                     min_nontrivial=100, doc="roc(): rates, order, support, counts, views")],
 )
 
-RULE_EXTRA = ('float32/float16 scores; +-inf user thresholds; the returned curve is edited in place and roc() called again.')
+RULE_EXTRA = ('nb_points as NumPy integers incl. np.uint8(255) / np.int8(127); clause long_curves; read-only threshold arrays; float32/float16 scores; +-inf user thresholds; the returned curve is edited in place and roc() called again.')
